@@ -31,7 +31,7 @@ def hexv(v):
 DEFAULT_W = dict(put=34, get=12, has=3, size=4, remove=12, flush=12, reopen=0, rebits=0, igc=0, pgc=0, iter=0, crash=0, missize=0, pgcb=0, igcb=0, atflush=0)
 
 def history(rng, weights=None, nops=(15, 60), bits_choices=(8, 9, 12, 16), imax_choices=(1, 40, 100, 300, 1 << 30),
-            pmax_choices=(1, 60, 100, 300, 1 << 30), imm_p=0.25, nkeys=(4, 11), maxlen=11, keys=None, sweep_p=0.0):
+            pmax_choices=(1, 60, 100, 300, 1 << 30), imm_p=0.25, nkeys=(4, 11), maxlen=11, keys=None, sweep_p=0.0, first=None, lens=(4, 5, 6, 7), equal_len=False, one_bucket=False):
     w = dict(DEFAULT_W)
     if weights:
         w.update(weights)
@@ -39,7 +39,24 @@ def history(rng, weights=None, nops=(15, 60), bits_choices=(8, 9, 12, 16), imax_
     ws = [w[k] for k in kinds]
     bits = rng.choice(bits_choices)
     cfg = dict(bits=bits, imax=rng.choice(imax_choices), pmax=rng.choice(pmax_choices), imm=1 if rng.random() < imm_p else 0)
-    ks = keys or mk_keys(rng, rng.randint(*nkeys))
+    if keys:
+        ks = keys
+    else:
+        prof = rng.random()
+        if equal_len:
+            lens = (rng.choice(lens),)
+        if one_bucket:
+            # same bucket for every bit size up to 24: the first three digest bytes are fixed
+            f0 = rng.choice((5, 0xff, 0))
+            ks = [k[:2] + bytes([f0, f0, f0]) + k[5:] for k in mk_keys(rng, rng.randint(*nkeys), lens=lens, first=(f0,))]
+        elif first or equal_len:
+            ks = mk_keys(rng, rng.randint(*nkeys), lens=lens, first=first or (5, 6))
+        elif prof < 0.12:      # highest buckets: every bucket byte 0xff
+            ks = mk_keys(rng, rng.randint(*nkeys), first=(0xff,), mid=(0xff, 0xfe))
+        elif prof < 0.2:     # lowest buckets
+            ks = mk_keys(rng, rng.randint(*nkeys), first=(0,), mid=(0, 1))
+        else:
+            ks = mk_keys(rng, rng.randint(*nkeys))
     lines = ["cfg primary=mh bits=%(bits)d imax=%(imax)d pmax=%(pmax)d imm=%(imm)d" % cfg]
     n = rng.randint(*nops)
     for _ in range(n):
